@@ -149,6 +149,9 @@ func H_SessionValidity() {
 	dup := false
 	selfIn := false
 	for i := range ids {
+		if len(ids[i]) == 0 {
+			dup = true // the empty identifier is refused like a duplicate
+		}
 		selfIn = vsym.Or(selfIn, vsym.StrEq(string(ids[i]), string(self)))
 		for j := i + 1; j < len(ids); j++ {
 			dup = vsym.Or(dup, vsym.StrEq(string(ids[i]), string(ids[j])))
